@@ -112,13 +112,19 @@ SymZ  == {Sy("in", ty, 2, 0, p, 11, 0) : ty \in {"buy", "interest"}, p \in 1..2}
 InstZ == <<At(300, 3600), At(300, 79200), At(301, 79200), At(365, 3600), At(365, 79200), At(500, 3600)>>
 OffZ  == {-18000, 32400}
 
-Symbols  == CASE Slice = "A" -> SymA [] Slice = "B" -> SymB [] Slice = "C" -> SymC [] Slice = "D" -> SymD
+(* W: wall-clock order against instant order - purchases at two prices and unit sales, four instants within eight hours   *)
+(* around new year, three UTC offsets: the written time of day of a later transaction can precede that of an earlier one   *)
+SymW  == {Sy("in", "buy", 1, 0, p, 11, 0) : p \in 1..2} \cup {Sy("out", "sell", 1, 0, 1, 11, 0)}
+InstW == InstC
+OffW  == OffC
+
+Symbols  == CASE Slice = "W" -> SymW [] Slice = "A" -> SymA [] Slice = "B" -> SymB [] Slice = "C" -> SymC [] Slice = "D" -> SymD
               [] Slice = "T" -> SymT [] Slice = "M" -> SymM [] Slice = "Y" -> SymY [] Slice = "V" -> SymV
               [] Slice = "F" -> SymF [] Slice = "Z" -> SymZ
-Instants == CASE Slice = "A" -> InstA [] Slice = "B" -> InstB [] Slice = "C" -> InstC [] Slice = "D" -> InstD
+Instants == CASE Slice = "W" -> InstW [] Slice = "A" -> InstA [] Slice = "B" -> InstB [] Slice = "C" -> InstC [] Slice = "D" -> InstD
               [] Slice = "T" -> InstT [] Slice = "M" -> InstM [] Slice = "Y" -> InstY [] Slice = "V" -> InstV
               [] Slice = "F" -> InstF [] Slice = "Z" -> InstZ
-Offs     == IF Slice = "C" THEN OffC
+Offs     == IF Slice \in {"C", "W"} THEN OffC
             ELSE IF Slice = "Z" THEN (IF hist = << >> THEN OffZ ELSE {hist[1].off})
             ELSE {0}
 
